@@ -14,6 +14,23 @@ SC = H.SC
 K_T = H.KINDS['_process_trans_SIS_Markov']
 
 
+def rate_cb(label, arity):
+    """module-level: user / library rate function = a pure, non-negative function of its node arguments"""
+    def mk(run, name, **kw):
+        f = z3.Function('%s_%d' % (label, so.Mode.gen), *([so.U()] * arity + [R]))
+
+        def fn(run2, args, kws, lineno):
+            if len(args) != arity or kws or not all(z3.is_expr(a) and a.sort() == so.U() for a in args):
+                raise Unsupported('rate function called with unexpected arguments (line %d)' % lineno)
+            run2.assume(f(*args) >= 0)
+            return f(*args)
+        cb = Callback(name, fn)
+        cb.zf = f
+        cb.modifies_args = []
+        return cb
+    return mk
+
+
 def contracts():
     cs = [c for c in H.contracts() if c.qualname.startswith('myQueue.')]
     for c in cs:
@@ -108,22 +125,6 @@ def contracts():
     # ------------------------------------------------------------------ _process_trans_SIS_Markov
     K_R = H.KINDS['_process_rec_SIS_']
     TRl = T.list_of(H.TR)
-
-    def rate_cb(label, arity):
-        """user / library rate function: a pure, non-negative function of its node arguments"""
-        def mk(run, name, **kw):
-            f = z3.Function('%s_%d' % (label, so.Mode.gen), *([so.U()] * arity + [R]))
-
-            def fn(run2, args, kws, lineno):
-                if len(args) != arity or kws or not all(z3.is_expr(a) and a.sort() == so.U() for a in args):
-                    raise Unsupported('rate function called with unexpected arguments (line %d)' % lineno)
-                run2.assume(f(*args) >= 0)
-                return f(*args)
-            cb = Callback(name, fn)
-            cb.zf = f
-            cb.modifies_args = []
-            return cb
-        return mk
 
     def tr_cases():
         base = dict(time=T.real, G=T.graph(), source=T.node, target=T.node, times=lR, S=lI, I=lI, Q=H.mk_queue, status=status_t,
